@@ -1053,78 +1053,111 @@ def run_sweep(ctx, native4):
     return follow
 
 
-def run_coqchk(ctx):
-    """coqchk -o: the compiled proofs are re-checked by the independent checker; its axiom list goes into the evidence"""
-    t0 = time.time()
-    info = {}
+AX_RE = re.compile(r'\* Axioms:\s*(.*?)\n\s*\n\* Constants', re.S)
 
-    def chk(mods, timeout, lock=False):
-        # coqchk only reads .vo files: it runs without the shared build lock (it takes minutes and would block every
-        # other build); a .vo rewritten underneath it makes it fail, hence one retry under the lock for our own closure
-        cmd = ['coqchk', '-silent', '-o', '-Q', vlib.COQ, 'CppcmsV'] + mods
-        if lock:
-            with vlib.Lock('coq'):
-                p = vlib.sh(cmd, cwd=vlib.COQ, timeout=timeout)
-        else:
+
+def _coqchk(mods, timeout, lock=False):
+    # coqchk only reads .vo files: it runs without the shared build lock (it takes minutes and would block every other
+    # build); a .vo rewritten underneath it makes it fail, hence one retry under the lock for our own closure
+    cmd = ['coqchk', '-silent', '-o', '-Q', vlib.COQ, 'CppcmsV'] + mods
+    if lock:
+        with vlib.Lock('coq'):
             p = vlib.sh(cmd, cwd=vlib.COQ, timeout=timeout)
-        txt = (p.stdout + p.stderr).decode(errors='replace')
-        i = txt.find('CONTEXT SUMMARY')
-        return p.returncode, (txt[i:] if i >= 0 else txt[-1500:])
+    else:
+        p = vlib.sh(cmd, cwd=vlib.COQ, timeout=timeout)
+    txt = (p.stdout + p.stderr).decode(errors='replace')
+    i = txt.find('CONTEXT SUMMARY')
+    return p.returncode, (txt[i:] if i >= 0 else txt[-1500:])
+
+
+def _coqchk_own():
+    t0 = time.time()
     try:
-        rc, summ = chk(['CppcmsV.C14.Props'], 900)
+        rc, summ = _coqchk(['CppcmsV.C14.Props'], 900)
         if rc != 0:
-            rc, summ = chk(['CppcmsV.C14.Props'], 900, lock=True)
+            rc, summ = _coqchk(['CppcmsV.C14.Props'], 900, lock=True)
     except Exception as e:
         rc, summ = 99, 'coqchk did not finish: %r' % e
-    info['cmd'] = 'coqchk -silent -o -Q coq CppcmsV CppcmsV.C14.Props'
-    info['rc'] = rc
-    info['context_summary'] = [l.strip() for l in summ.split('\n') if l.strip() and not set(l.strip()) <= set('=')]
-    m = re.search(r'\* Axioms:\s*(.*?)\n\s*\n\* Constants', summ, flags=re.S)
-    info['axioms'] = m.group(1).strip() if m else 'unparsed'
-    if rc != 0:
-        ctx.broke('coqchk rejected the compiled C14 proofs', summ[-2000:])
-    elif info['axioms'] != '<none>':
-        ctx.broke('coqchk reports axioms in the closure of C14/Props.vo: ' + info['axioms'][:500])
-    # the rest of the project (other properties, built by others; informative only)
+    m = AX_RE.search(summ)
+    return {'cmd': 'coqchk -silent -o -Q coq CppcmsV CppcmsV.C14.Props', 'rc': rc,
+            'context_summary': [l.strip() for l in summ.split('\n') if l.strip() and not set(l.strip()) <= set('=')],
+            'axioms': m.group(1).strip() if m else 'unparsed', 'wall_s': round(time.time() - t0, 1), '_raw': summ}
+
+
+def _coqchk_project(budget):
+    """all compiled modules of the project (other properties are built by other people; informative only).  A directory
+    whose .vo files are mutually inconsistent (being rebuilt) is dropped and the rest re-checked, within the time budget."""
+    t0 = time.time()
     mods = []
     for f in sorted(glob.glob(os.path.join(vlib.COQ, '*', '*.vo'))):
         rel = os.path.relpath(f, vlib.COQ)[:-3]
-        if os.path.exists(os.path.join(vlib.COQ, rel + '.v')) and os.path.getmtime(f) >= os.path.getmtime(os.path.join(vlib.COQ, rel + '.v')):
+        v = os.path.join(vlib.COQ, rel + '.v')
+        if os.path.exists(v) and os.path.getmtime(f) >= os.path.getmtime(v):
             mods.append('CppcmsV.' + rel.replace('/', '.'))
-    info['project_modules'] = len(mods)
-    if os.environ.get('C14_COQCHK_PROJECT', '1') != '0':
-        # other properties' directories are being rebuilt by other people at any moment: a directory whose .vo files are
-        # mutually inconsistent is dropped and the rest re-checked (time budget 300 s in total)
-        t1 = time.time()
-        excluded = []
-        proj = {'rc': None}
-        while time.time() - t1 < 300:
-            try:
-                rc2, summ2 = chk(mods, max(30, int(300 - (time.time() - t1))))
-            except Exception as e:
-                proj = {'rc': None, 'note': 'coqchk over the %d compiled modules did not finish within the time budget (%s)' % (len(mods), type(e).__name__)}
-                break
-            m2 = re.search(r'\* Axioms:\s*(.*?)\n\s*\n\* Constants', summ2, flags=re.S)
-            proj = {'rc': rc2, 'modules_checked': len(mods), 'axioms': m2.group(1).strip() if m2 else summ2[-600:]}
-            if rc2 == 0:
-                break
-            bad = re.search(r'CppcmsV\.([A-Za-z0-9_]+)\.', summ2)
-            if not bad or bad.group(1) in ('C14', 'Base'):
-                break
-            excluded.append(bad.group(1))
-            mods = [x for x in mods if not x.startswith('CppcmsV.%s.' % bad.group(1))]
-        proj['excluded_dirs_with_inconsistent_vo'] = excluded
-        info['project'] = proj
-    info['wall_s'] = round(time.time() - t0, 1)
+    proj = {'rc': None, 'modules_found': len(mods)}
+    excluded = []
+    while time.time() - t0 < budget - 20:
+        try:
+            rc2, summ2 = _coqchk(mods, max(20, int(budget - (time.time() - t0))))
+        except Exception as e:
+            proj.update({'rc': None, 'note': 'coqchk over %d compiled modules did not finish within %d s (%s); the closure of C14/Props.vo is '
+                                             'checked separately' % (len(mods), budget, type(e).__name__)})
+            break
+        m2 = AX_RE.search(summ2)
+        proj.update({'rc': rc2, 'modules_checked': len(mods), 'axioms': m2.group(1).strip() if m2 else summ2[-600:]})
+        if rc2 == 0:
+            proj.pop('note', None)
+            break
+        bad = re.search(r'CppcmsV\.([A-Za-z0-9_]+)\.', summ2)
+        if not bad or bad.group(1) in ('C14', 'Base'):
+            break
+        excluded.append(bad.group(1))
+        mods = [x for x in mods if not x.startswith('CppcmsV.%s.' % bad.group(1))]
+    proj['excluded_dirs_with_inconsistent_vo'] = excluded
+    proj['wall_s'] = round(time.time() - t0, 1)
+    return proj
+
+
+def start_coqchk():
+    """coqchk -o: the compiled proofs are re-checked by the independent checker, concurrently with the rest of the run"""
+    import concurrent.futures
+    ex = concurrent.futures.ThreadPoolExecutor(2)
+    own = ex.submit(_coqchk_own)
+    proj = ex.submit(_coqchk_project, 400) if os.environ.get('C14_COQCHK_PROJECT', '1') != '0' else None
+    return ex, own, proj
+
+
+def finish_coqchk(ctx, handle):
+    ex, own, proj = handle
+    info = own.result()
+    summ = info.pop('_raw')
+    if info['rc'] != 0:
+        ctx.broke('coqchk rejected the compiled C14 proofs', summ[-2000:])
+    elif info['axioms'] != '<none>':
+        ctx.broke('coqchk reports axioms in the closure of C14/Props.vo: ' + info['axioms'][:500])
+    if proj is not None:
+        info['project'] = proj.result()
+    ex.shutdown()
     ctx.coverage['coqchk'] = info
 
 
 def run(ctx):
+    box = {}
+    try:
+        _run(ctx, box)
+    finally:
+        if box.get('chk'):
+            finish_coqchk(ctx, box.pop('chk'))
+
+
+def _run(ctx, box):
     errs = gen_c14()
     for n, e in errs:
         ctx.broke('translator cxx2v failed on %s (tie to source broken)' % n, e)
     res = vlib.coq_props('C14')
     ctx.proof(res)
+    if not ctx.quick() and ctx.replay_cases is None and not res['failing']:
+        box['chk'] = start_coqchk()
     ctx.coverage['trusted_base'] = [
         'Coq 8.16.1 kernel, vm_compute (256-point sweeps); no native_compute',
         'tools/cxx2v.py + clang JSON AST, extended in checks/C14.py (validator loop body -> byte predicate, comparator loop body -> step function, '
@@ -1155,7 +1188,9 @@ def run(ctx):
         'strings composed of valid characters (all lengths, boundaries), control characters and 41 kinds of malformed pieces (over-long, surrogate, '
         '> U+10FFFF, F5..FF, lone trail, truncated, bad trail) through validate (both modes, several incoming counts), valid_utf8, valid by name '
         '(spelling variants of every table name incl. embedded NUL), validate_or_filter with replacement in {none, ?, space, X, tab, ~, 01, 7F, 80, FF, '
-        'random}, utf_to_utf skip/stop; encode/width for code points up to 2^21; name dispatch incl. near-miss names. Every tier: all sequences of '
+        'random}, utf_to_utf skip/stop; encode/width for code points up to 2^21; name dispatch incl. near-miss names; form submissions (frm: real '
+        'cppcms::form + widgets::text loaded from an http::context, 14 locale names, limits around the code-point count and the byte count, charset '
+        'validation on/off); windows-1254/cp1254 through the iconv/ICU fall-back (oracle only, no model). Every tier: all sequences of '
         'length 1..3 natively under ASan against a table-driven reference (one evaluation per block of 1/256/65536 sequences); thorough adds all 2^32 '
         'sequences of length 4. Non-trivial: the input contains a byte outside printable ASCII (decoders, validators), the filter '
         'had to change the text (flt), a non-ASCII code point (enc); grid/sb1/sb2/cmp lines always. distinct = distinct case lines.')
@@ -1202,4 +1237,3 @@ def run(ctx):
     ctx.coverage['exhaustive_parts'].append('all byte sequences of length 1..3 (2^24+2^16+2^8) x 3 decoder entry points under AddressSanitizer')
     if not ctx.quick():
         ctx.coverage['exhaustive_parts'].append('thorough: all 2^32 byte sequences of length 4 x 3 decoder entry points, natively')
-        run_coqchk(ctx)
